@@ -396,6 +396,24 @@ func (vc *VC) appendOp(st *State, resV ssa.Value, c *ssa.CallCommon) {
 	if isStructLike(sl.Elem()) {
 		vc.unsupp["append to slice of structs"] = true
 	}
+	// append sites: "at append Type.field#n: assert e" - the destination is a field (or a named local) and the
+	// appended element is visible as elem
+	if vc.inlineDepth == 0 && vc.spec != nil && len(vc.spec.Sites) > 0 {
+		if anchor := appendAnchor(c.Args[0]); anchor != "" {
+			vc.callOrd["append:"+anchor]++
+			ord := vc.callOrd["append:"+anchor]
+			if so, ok := vc.srcOrd[c]; ok {
+				ord = so
+			}
+			if _, isStr := c.Args[1].Type().Underlying().(*types.Basic); !isStr {
+				t := vc.val(st, c.Args[1])
+				elem := sx("select", sx("select", arr, sx("sbase", t)), sx("soff", t))
+				if err := vc.appendSites(st, anchor, ord, Val{T: elem, S: es, Ty: sl.Elem()}); err != nil {
+					panic(compileErr{err.Error()})
+				}
+			}
+		}
+	}
 	vc.assumedUse["append always copies to a fresh backing array (aliasing through spare capacity not modelled)"] = true
 	r := vc.newRef(st, "appendbacking")
 	// second argument is a slice (variadic form)
@@ -811,4 +829,49 @@ func (vc *VC) inlineableCall(c *ssa.CallCommon) bool {
 	}
 	// nested small function: decided when it is reached (falls back to a mod-set havoc, which is sound)
 	return inModule(callee)
+}
+
+// appendAnchor names the destination of an append: "Type.field" for x.f = append(x.f, ...), the local's name for a
+// named local slice.
+func appendAnchor(dst ssa.Value) string {
+	u, ok := dst.(*ssa.UnOp)
+	if !ok {
+		return ""
+	}
+	switch a := u.X.(type) {
+	case *ssa.FieldAddr:
+		n := fieldName(a.X.Type(), a.Field)
+		return n
+	case *ssa.Alloc:
+		if a.Comment != "" {
+			return a.Comment
+		}
+	}
+	return ""
+}
+
+func (vc *VC) appendSites(st *State, anchor string, ord int, elem Val) error {
+	for _, ss := range vc.spec.Sites {
+		if ss.AnchorKind != "append" || ss.Anchor != anchor || (ss.N != 0 && ss.N != ord) {
+			continue
+		}
+		vc.siteHits[ss]++
+		env := vc.baseEnv(st)
+		vc.localVars(st, env.vars, nil)
+		env.vars["elem"] = elem
+		t, err := env.compileBool(ss.Clause.E)
+		if err != nil {
+			return fmt.Errorf("%s: site append %s#%d: %v", vc.key, anchor, ord, err)
+		}
+		if ss.IsAssume {
+			vc.assume(st, t)
+			continue
+		}
+		name := fmt.Sprintf("site@append(%s)#%d", anchor, ord)
+		if ss.Clause.Label != "" {
+			name += "[" + ss.Clause.Label + "]"
+		}
+		vc.oblige(st, name, "site", t, ss.Clause.Text, ss.Clause.Props)
+	}
+	return nil
 }
